@@ -130,6 +130,8 @@ def install(w):
                 o = "?"
             if o is None:
                 it.sadd(sym.tag(t) == T["none"])
+            elif w.is_undefined(o):
+                it.sadd(sym.tag(t) == T["undefined"])
             else:
                 it.sadd(z3.And(sym.tag(t) == T["atom"], sym.as_atom(t) == v.t))
         elif isinstance(v, VList):
@@ -456,7 +458,7 @@ def install(w):
         return lambda it, *a: VBool(fn(it, *a))
 
     def as_dyn_t(it, v):
-        return to_dyn(it, v).t if not isinstance(v, VDyn) else v.t
+        return w.to_dyn(it, v).t if not isinstance(v, VDyn) else v.t
 
     w.spec_funcs.update({
         "is_bool": p(lambda it, v: sym.tag(as_dyn_t(it, v)) == T["bool"]),
